@@ -1,5 +1,1438 @@
-//! C06 — not built yet.
+//! C06 — integers, dimensions, glue: scan, print and compute exactly as TeX. DESIGN.md §3 C06.
+//! Engine: BEX. (a) print/scan of every scaled value through `common::Scaled` directly,
+//! (b) constants through the VM against `reftex::scanum` (tex.web §440-462),
+//! (c) `\advance`/`\multiply`/`\divide` on an operand lattice through the VM + sweeps of the pure kernels
+//! against `reftex::arith` (tex.web §100-107).
+
+mod vmrun;
+
+use common::{Scaled, ScaledUnit};
+use reftex::arith;
+use reftex::scanum::{self, Glue, ScanError, Scanner, Tok};
+use serde_json::{json, Value};
+use vcore::{catch, Acc, Ctx, Level};
+use vmrun::*;
+
+/// Debug aid (C06_CLASSES=1): every disagreement class with its count and first witness, on stderr.
+static CLASSES: std::sync::Mutex<std::collections::BTreeMap<String, (u64, String)>> = std::sync::Mutex::new(std::collections::BTreeMap::new());
+fn dbgc(class: &str, case: &Value) {
+    if std::env::var_os("C06_CLASSES").is_none() {
+        return;
+    }
+    let mut g = CLASSES.lock().unwrap();
+    let e = g.entry(class.to_string()).or_insert((0, String::new()));
+    e.0 += 1;
+    let w = case.get("constant").or(case.get("program")).map(|v| v.to_string()).unwrap_or_else(|| case.to_string());
+    if e.1.is_empty() || w.len() < e.1.len() {
+        e.1 = w;
+    }
+}
+fn dump_classes() {
+    for (k, (n, w)) in CLASSES.lock().unwrap().iter() {
+        eprintln!("CLASS {n:8} {k}\n         shortest: {}", vcore::clip(w, 400));
+    }
+}
+
+// ------------------------------------------------------------------ (a) print / scan
+
+/// Half-open ranges of magnitudes |s| enumerated by part (a); every magnitude is checked with both signs,
+/// in increasing order of magnitude (so the first reported case is the smallest one).
+fn value_ranges(quick: bool) -> Vec<(i64, i64)> {
+    if !quick {
+        return vec![(0, MAXI + 2)];
+    }
+    let mut r: Vec<(i64, i64)> = vec![(0, 1 << 24)];
+    for k in 24..=31u32 {
+        let p = 1i64 << k;
+        r.push((p - 65536, p + 65536));
+    }
+    // the carry region around every integer number of points
+    for k in 0i64..=32768 {
+        r.push((k * 65536 - 64, k * 65536 + 64));
+    }
+    merge_ranges(r, 0, MAXI + 2)
+}
+fn merge_ranges(r: Vec<(i64, i64)>, lo: i64, hi: i64) -> Vec<(i64, i64)> {
+    let mut r: Vec<(i64, i64)> = r.into_iter().map(|(a, b)| (a.max(lo), b.min(hi))).filter(|(a, b)| a < b).collect();
+    r.sort();
+    let mut out: Vec<(i64, i64)> = vec![];
+    for (a, b) in r {
+        if let Some(l) = out.last_mut() {
+            if a <= l.1 {
+                l.1 = l.1.max(b);
+                continue;
+            }
+        }
+        out.push((a, b));
+    }
+    out
+}
+fn nth_in_ranges(ranges: &[(i64, i64)], cum: &[u64], idx: u64) -> i64 {
+    // cum[i] = number of values before range i
+    let i = match cum.binary_search(&idx) {
+        Ok(i) => i,
+        Err(i) => i - 1,
+    };
+    ranges[i].0 + (idx - cum[i]) as i64
+}
+fn cumulate(ranges: &[(i64, i64)]) -> (Vec<u64>, u64) {
+    let mut cum = vec![];
+    let mut n = 0u64;
+    for (a, b) in ranges {
+        cum.push(n);
+        n += (b - a) as u64;
+    }
+    (cum, n)
+}
+
+/// `acc.fail` without building the case when it could not be kept anyway (mass failures).
+fn would_keep(acc: &Acc, idx: u64) -> bool {
+    acc.fails.len() < 6 || acc.fails.last().map(|f| idx < f.idx).unwrap_or(true)
+}
+
+fn check_print_scan(idx: u64, s: i64, acc: &mut Acc) {
+    acc.eval();
+    let legal = s.abs() <= MAXD;
+    if s != 0 {
+        acc.nontrivial();
+    }
+    let want = arith::print_scaled(s);
+    let case = || json!({"kind": "print-scan", "s": s});
+    let r = catch(|| {
+        let sc = Scaled(s as i32);
+        let a = sc.to_string();
+        let b = format!("{}", sc.display_no_units());
+        let (c, d) = if legal { (Some(Scaled::parse_no_units(&b).map(|x| x.0 as i64).map_err(|_| ())), Some(Scaled::parse_from_string(&a).map(|x| x.0 as i64))) } else { (None, None) };
+        (a, b, c, d)
+    });
+    match r {
+        Err(p) => {
+            acc.class("DISAGREE print/scan panics");
+            dbgc("DISAGREE print/scan panics", &case());
+            acc.fail(idx, case(), format!("{want}pt, scanning back to {s}"), p.describe(), "print or scan panicked")
+        }
+        Ok((a, b, c, d)) => {
+            if b != want || a != format!("{want}pt") {
+                acc.class("DISAGREE printed decimal differs from print_scaled");
+                dbgc("DISAGREE printed decimal differs from print_scaled", &case());
+                acc.fail(idx, case(), format!("{want}pt"), a, "Display differs from print_scaled (tex.web §103)");
+                return;
+            }
+            if !legal {
+                acc.count("printed_beyond_max_dimen");
+                return;
+            }
+            let frac = s.abs() % 65536;
+            if want.len() - want.find('.').unwrap() - 1 == 5 {
+                acc.count("five_fraction_digits_needed");
+            }
+            if frac == 65535 || frac == 1 {
+                acc.count("fraction_adjacent_to_an_integer");
+            }
+            if c != Some(Ok(s)) {
+                acc.class("DISAGREE parse_no_units(print(s)) != s");
+                dbgc("DISAGREE parse_no_units(print(s)) != s", &case());
+                acc.fail(idx, case(), format!("parse_no_units({b:?}) = {s}"), format!("{c:?}"), "round trip through parse_no_units");
+            }
+            if d != Some(Ok(s)) {
+                acc.class(if s < 0 { "DISAGREE parse_from_string(print(s)) != s for negative s" } else { "DISAGREE parse_from_string(print(s)) != s" });
+                if would_keep(acc, idx) {
+                    acc.fail(idx, case(), format!("parse_from_string({a:?}) = {s}"), format!("{d:?}"), "round trip through parse_from_string");
+                } else {
+                    acc.fail_count += 1;
+                }
+            }
+        }
+    }
+}
+
+// ------------------------------------------------------------------ VM cases
+
+#[derive(Clone, Copy, Debug, PartialEq, Eq)]
+enum Kind {
+    Count,
+    Dimen,
+    Skip,
+}
+impl Kind {
+    fn name(self) -> &'static str {
+        match self {
+            Kind::Count => "count",
+            Kind::Dimen => "dimen",
+            Kind::Skip => "skip",
+        }
+    }
+    fn from(s: &str) -> Kind {
+        match s {
+            "count" => Kind::Count,
+            "dimen" => Kind::Dimen,
+            _ => Kind::Skip,
+        }
+    }
+}
+
+fn regs_json(r: &Regs) -> Value {
+    json!({"count1": r.count1, "dimen1": r.dimen1, "skip1": [r.skip1.width, r.skip1.stretch, r.skip1.stretch_order, r.skip1.shrink, r.skip1.shrink_order]})
+}
+fn regs_from(v: &Value) -> Regs {
+    let g = &v["skip1"];
+    Regs {
+        count1: v["count1"].as_i64().unwrap_or(0),
+        dimen1: v["dimen1"].as_i64().unwrap_or(0),
+        skip1: Glue { width: g[0].as_i64().unwrap_or(0), stretch: g[1].as_i64().unwrap_or(0), stretch_order: g[2].as_u64().unwrap_or(0) as u8, shrink: g[3].as_i64().unwrap_or(0), shrink_order: g[4].as_u64().unwrap_or(0) as u8 },
+    }
+}
+fn regs_src(r: &Regs) -> String {
+    format!("{}{}{}", set_count(1, r.count1), set_dimen(1, r.dimen1), set_skip(1, &r.skip1))
+}
+
+fn err_names(e: &[ScanError]) -> String {
+    format!("{e:?}")
+}
+
+#[derive(Clone, Debug, PartialEq, Eq)]
+struct ModelOut {
+    value: String,
+    rest: Option<String>,
+    errors: Vec<ScanError>,
+    undefined: bool,
+}
+/// Known deviations that stay (pinned by the repository's own tests), as switches of the model.
+#[derive(Clone, Copy, Debug, PartialEq, Eq)]
+enum Switch {
+    Tex,
+    /// D22b: an `l` after `fil` must follow immediately (TeX: each l is a keyword, spaces may precede)
+    FilL,
+    /// D33: the clamped value takes the sign of a negative internal unit (TeX: +max_dimen)
+    ClampSign,
+}
+const KNOWN_SWITCHES: [(Switch, &str); 2] = [(Switch::FilL, "D22b"), (Switch::ClampSign, "D33")];
+fn model_const(kind: Kind, toks: &[Tok], sw: Switch) -> ModelOut {
+    let mut sc = Scanner::new(toks.to_vec());
+    sc.em = 12 * 65536;
+    sc.ex = 12 * 65536;
+    sc.fil_l_skips_spaces = sw != Switch::FilL;
+    sc.clamp_sign_follows_unit = sw == Switch::ClampSign;
+    let value = match kind {
+        Kind::Count => sc.scan_int().to_string(),
+        Kind::Dimen => format!("{}pt", arith::print_scaled(sc.scan_dimen(false, None).0)),
+        Kind::Skip => scanum::print_spec(&sc.scan_glue()),
+    };
+    let rest = sc.rest_text();
+    ModelOut { value, rest, errors: sc.errors, undefined: sc.undefined }
+}
+
+/// `\<kind>0=<csrc>\relax|\the\<kind>0|` against the scanner model.
+fn check_const(idx: u64, kind: Kind, regs: &Regs, csrc: &str, acc: &mut Acc) {
+    acc.eval();
+    let case = || json!({"kind": "const", "target": kind.name(), "regs": regs_json(regs), "constant": csrc, "program": program(kind, regs, csrc)});
+    let mut toks = match lex(csrc, regs) {
+        Ok(t) => t,
+        Err(e) => {
+            acc.fail(idx, case(), "a constant over the harness alphabet", e, "harness: enumerator produced a source outside its alphabet");
+            return;
+        }
+    };
+    toks.push(Tok::Cs(None));
+    let m = model_const(kind, &toks, Switch::Tex);
+    let Some(rest) = m.rest.clone() else {
+        acc.skipped += 1;
+        return;
+    };
+    // counters and non-triviality from the model
+    if !m.errors.is_empty() || (m.value != "0" && m.value != "0.0pt") {
+        acc.nontrivial();
+    }
+    for e in &m.errors {
+        acc.count(match e {
+            ScanError::DimensionTooLarge => "err_dimension_too_large",
+            ScanError::NumberTooBig => "err_number_too_big",
+            ScanError::MissingNumber => "err_missing_number",
+            ScanError::IllegalUnit => "err_illegal_unit",
+            ScanError::IllegalFil => "err_illegal_fil",
+            ScanError::ImproperAlpha => "err_improper_alpha",
+        });
+    }
+    if m.errors.is_empty() && (m.value == "16383.99998pt" || m.value == "-16383.99998pt") {
+        acc.count("dimen_exactly_max_without_error");
+    }
+    if m.errors.is_empty() && (m.value == "2147483647" || m.value == "-2147483647") {
+        acc.count("int_exactly_max_without_error");
+    }
+    let lower = csrc.to_ascii_lowercase();
+    for (u, c) in [("pt", "unit_pt"), ("pc", "unit_pc"), ("in", "unit_in"), ("bp", "unit_bp"), ("cm", "unit_cm"), ("mm", "unit_mm"), ("dd", "unit_dd"), ("cc", "unit_cc"), ("sp", "unit_sp"), ("em", "unit_em"), ("ex", "unit_ex"), ("true", "unit_true"), ("fil", "unit_fil")] {
+        if lower.contains(u) {
+            acc.count(c);
+        }
+    }
+    let outs = |m: &ModelOut| format!("{}|{}|", m.rest.clone().unwrap_or_default(), m.value);
+    let want_out = format!("{rest}|{}|", m.value);
+    let want = format!("{want_out:?} errors={}", err_names(&m.errors));
+    let prog = program(kind, regs, csrc);
+    match run_program(&prog) {
+        Err(p) => {
+            if m.undefined {
+                acc.class("DISAGREE panic on an operand of -2^31 (outside TeX's integer range)");
+                dbgc(&format!("panic on an operand of -2^31 at {}", p.source_line()), &case());
+            } else {
+                acc.class(&format!("DISAGREE panic at {}", p.source_line()));
+                dbgc(&format!("DISAGREE panic at {}", p.source_line()), &case());
+            }
+            acc.fail(idx, case(), want, p.describe(), "the VM panicked while scanning a constant");
+        }
+        Ok(obs) => {
+            if m.undefined {
+                // tex.web negates -2^31 here (Pascal range violation): only "no panic" is required
+                acc.class("operand -2^31: not defined by tex.web, no panic");
+                acc.count("undefined_by_texweb_no_panic");
+                return;
+            }
+            if m.errors.iter().any(|e| matches!(e, ScanError::MissingNumber | ScanError::ImproperAlpha | ScanError::IllegalUnit)) {
+                // TeX itself finds no well-formed constant here (no digits, no unit): the crate makes some
+                // of these fatal by design and is lenient for others (`1 .5pt`); the property quantifies over
+                // constants and over values beyond the limits, so only "no panic" is required
+                let lenient = obs.fatal.is_none() && obs.errors.is_empty();
+                acc.class(if lenient { "malformed constant (TeX: Missing number / Illegal unit / Improper alphabetic constant), crate accepts it silently: no panic" } else { "malformed constant (TeX: Missing number / Illegal unit / Improper alphabetic constant), crate reports an error: no panic" });
+                acc.count("malformed_constant_no_panic");
+                if lenient && std::env::var_os("C06_CLASSES").is_some() {
+                    dbgc("(not judged) malformed in TeX, accepted silently by the crate", &case());
+                }
+                return;
+            }
+            let kinds: Vec<Option<ScanError>> = obs.errors.iter().map(|t| error_kind(t)).collect();
+            let agrees = |m: &ModelOut| obs.fatal.is_none() && obs.out == outs(m) && kinds.len() == m.errors.len() && kinds.iter().zip(m.errors.iter()).all(|(a, b)| *a == Some(*b));
+            if agrees(&m) {
+                acc.class(&format!("agree errors={}", err_names(&m.errors)));
+                return;
+            }
+            // known deviations: the predicate is on the case (the switched model differs from TeX on it),
+            // and the observation must equal the switched model exactly
+            for (sw, id) in KNOWN_SWITCHES {
+                let adj = model_const(kind, &toks, sw);
+                if adj != m && adj.rest.is_none() {
+                    // under the known deviation the text left over contains a register (it starts another
+                    // assignment): outside the model's domain, exactly as when TeX's own rest does
+                    acc.class(&format!("known deviation {id} leaves the domain (stray register): not judged"));
+                    acc.skipped += 1;
+                    return;
+                }
+                if adj != m && agrees(&adj) {
+                    acc.class(&format!("known deviation {id}"));
+                    acc.known(id, idx, || json!({"constant": csrc, "program": prog, "tex": want, "crate": format!("{:?} errors={}", outs(&adj), err_names(&adj.errors))}));
+                    return;
+                }
+            }
+            let kinds_ok = kinds.len() == m.errors.len() && kinds.iter().zip(m.errors.iter()).all(|(a, b)| *a == Some(*b));
+            let got = format!("{:?} errors={:?}{}", obs.out, obs.errors, obs.fatal.as_ref().map(|f| format!(" FATAL {f}")).unwrap_or_default());
+            let class = if obs.fatal.is_some() {
+                "run ends with a fatal error".to_string()
+            } else if obs.out != want_out && kinds_ok {
+                "value or leftover text differs, same errors".to_string()
+            } else if obs.out == want_out {
+                format!("same value, errors differ: TeX {} / crate {:?}", err_names(&m.errors), kinds)
+            } else {
+                format!("value and errors differ: TeX {} / crate {:?}", err_names(&m.errors), kinds)
+            };
+            acc.class(&format!("DISAGREE {class}"));
+            dbgc(&format!("DISAGREE {class}"), &case());
+            acc.fail(idx, case(), want, got, class);
+        }
+    }
+}
+fn program(kind: Kind, regs: &Regs, csrc: &str) -> String {
+    let k = kind.name();
+    format!("{PREAMBLE}{}\\{k}0={csrc}\\relax|\\the\\{k}0|", regs_src(regs))
+}
+
+// ------------------------------------------------------------------ (b) menus
+
+fn fractions(maxlen: u32) -> Vec<String> {
+    let mut v: Vec<String> = vec!["".into(), ",".into(), ",5".into(), ",99999".into()];
+    for l in 0..=maxlen {
+        for i in 0..10u64.pow(l) {
+            v.push(if l == 0 { ".".into() } else { format!(".{:0w$}", i, w = l as usize) });
+        }
+    }
+    for l in (maxlen + 1).max(4)..=20 {
+        let l = l as usize;
+        v.push(format!(".{}", "9".repeat(l)));
+        v.push(format!(".{}1", "0".repeat(l - 1)));
+        v.push(format!(".4{}", "9".repeat(l - 1)));
+        v.push(format!(".5{}", "0".repeat(l - 1)));
+    }
+    // exact binary fractions and their neighbours: 2^-17 is the rounding tie of the last bit
+    for s in [".00000762939453125", ".0000076293945312", ".0000076293945313", ".00001525878906250", ".99999237060546875", ".999992370605468749", ".99998474121093750"] {
+        v.push(s.into());
+    }
+    v
+}
+const BASE_UNITS: [&str; 11] = ["pt", "pc", "in", "bp", "cm", "mm", "dd", "cc", "sp", "em", "ex"];
+fn all_units() -> Vec<&'static str> {
+    let mut v: Vec<&'static str> = BASE_UNITS.to_vec();
+    v.extend([
+        " pt", "\\s\\s pt", "\\s cm", "PT", "Pt", "truept", "true pt", "true\\s\\s mm", " true cm", "TRUE in", "truesp", "trueem", "true", "xy", "", " ", "p t", "pt ", "pt  ", "pt\\s\\s ", "em ", "\\dimen1 ", " \\dimen1 ", "\\count1 ", "\\skip1 ", "fil", "mu", "\\b c", "\\s\\b m",
+    ]);
+    v
+}
+const SIGNS: [&str; 6] = ["", "-", "+", "--", "- +-", " -"];
+fn int_parts() -> Vec<&'static str> {
+    vec![
+        "", "0", "1", "7", "00019", "16383", "16384", "1073741823", "1073741824", "2147483647", "2147483648", "99999999999999999999", "\\d ", "1\\d ",
+        "'0", "'7", "'37777", "'40000", "'7777777777", "'10000000000", "'17777777777", "'20000000000", "'8", "'",
+        "\"FG", "'78", "\"0", "\"7", "\"3FFF", "\"4000", "\"3FFFFFFF", "\"40000000", "\"7FFFFFFF", "\"80000000", "\"a", "\"A", "\"",
+        "`a", "`1", "`\\q ", "`\\b ", "`\\relax ",
+        "\\count1 ", "\\dimen1 ", "\\skip1 ",
+    ]
+}
+fn boundary_fractions() -> Vec<&'static str> {
+    vec!["", ".", ".5", ".99999", ".999999", ".0000076", ".00000762939453125", ".99999999999999999999", ",5", " .5"]
+}
+fn default_regs() -> Regs {
+    Regs { count1: 7, dimen1: 98304, skip1: Glue { width: 131072, stretch: 65536, stretch_order: 1, shrink: 3, shrink_order: 0 } }
+}
+
+fn lattice() -> Vec<i64> {
+    let mut v: Vec<i64> = vec![0, 1, 2, 3, 7, 10, 1000, 46340, 46341, MAXI - 1, MAXI];
+    for k in [8u32, 14, 15, 16, 29, 30] {
+        let p = 1i64 << k;
+        v.extend([p - 1, p, p + 1]);
+    }
+    let mut l: Vec<i64> = v.iter().flat_map(|x| [*x, -*x]).collect();
+    l.push(MINI);
+    l.sort();
+    l.dedup();
+    l
+}
+fn glue_lattice() -> Vec<Glue> {
+    let g = |width, stretch, stretch_order, shrink, shrink_order| Glue { width, stretch, stretch_order, shrink, shrink_order };
+    vec![
+        g(0, 0, 0, 0, 0),
+        g(65536, 0, 0, 0, 0),
+        g(-98304, 32768, 0, 3, 0),
+        g(65536, 65536, 1, 0, 0),
+        g(65536, 65536, 2, 65536, 1),
+        g(0, -65536, 3, 65536, 3),
+        g(7, 0, 1, 0, 2),  // zero stretch/shrink that nevertheless carry an order
+        g(0, 0, 3, 65536, 0),
+        g(MAXD, MAXD, 0, MAXD, 0),
+        g(-MAXD, MAXD, 1, -MAXD, 2),
+        g(MAXD + 1, 1, 0, 1, 0),
+        g(MAXI, 65536, 2, 65536, 2),
+        g(MINI, 0, 0, 0, 0),
+        g(3, 1 << 29, 1, (1 << 29) + 1, 0),
+    ]
+}
+
+// ------------------------------------------------------------------ (c) arithmetic through the VM
+
+#[derive(Clone, Copy, Debug, PartialEq, Eq)]
+enum Op {
+    Advance,
+    Multiply,
+    Divide,
+}
+const OPS: [Op; 3] = [Op::Advance, Op::Multiply, Op::Divide];
+impl Op {
+    fn name(self) -> &'static str {
+        match self {
+            Op::Advance => "advance",
+            Op::Multiply => "multiply",
+            Op::Divide => "divide",
+        }
+    }
+    fn from(s: &str) -> Op {
+        match s {
+            "advance" => Op::Advance,
+            "multiply" => Op::Multiply,
+            _ => Op::Divide,
+        }
+    }
+}
+const VARIANTS: [&str; 3] = ["plain", "global", "group"];
+
+/// Model of §1236-1240 on a count or dimen register. Err(()) = "Arithmetic overflow", value unchanged.
+/// None = tex.web is undefined (an operand of -2^31 is negated).
+fn model_arith(kind: Kind, op: Op, a: i64, b: i64) -> Option<Result<i64, ()>> {
+    match op {
+        Op::Advance => {
+            if kind == Kind::Dimen && b.abs() > MAXD {
+                // the operand comes from a register that \advance pushed beyond the legal range: tex.web §448
+                // (attach_sign) reports "Dimension too large" and continues with +max_dimen
+                if b == MINI {
+                    return None;
+                }
+                return Some(Ok(scanum::wrap32(a + MAXD)));
+            }
+            Some(Ok(scanum::wrap32(a + b)))
+        }
+        Op::Multiply => {
+            if a == MINI || b == MINI {
+                return None;
+            }
+            Some(if kind == Kind::Count { arith::mult_integers(a, b) } else { arith::nx_plus_y(a, b, 0) })
+        }
+        Op::Divide => {
+            if b == 0 {
+                return Some(Err(()));
+            }
+            if a == MINI || b == MINI {
+                return None;
+            }
+            Some(arith::x_over_n(a, b).map(|x| x.0))
+        }
+    }
+}
+
+fn show(kind: Kind, v: i64) -> String {
+    if kind == Kind::Count {
+        v.to_string()
+    } else {
+        format!("{}pt", arith::print_scaled(v))
+    }
+}
+
+fn arith_program(kind: Kind, op: Op, a: i64, b: i64, variant: &str) -> String {
+    let k = kind.name();
+    let mut p = String::from(PREAMBLE);
+    p.push_str(&if kind == Kind::Count { set_count(1, a) } else { set_dimen(1, a) });
+    let rhs = if op == Op::Advance && kind == Kind::Dimen {
+        if b.abs() <= MAXD {
+            format!("{b}sp")
+        } else {
+            p.push_str(&set_dimen(2, b));
+            "\\dimen2 ".to_string()
+        }
+    } else if b == MINI {
+        p.push_str(&set_count(2, b));
+        "\\count2 ".to_string()
+    } else {
+        format!("{b}")
+    };
+    let core = format!("\\{} \\{k}1 by {rhs}\\relax|\\the\\{k}1|", op.name());
+    match variant {
+        "plain" => p.push_str(&core),
+        "global" => p.push_str(&format!("{{\\global{core}}}\\the\\{k}1|")),
+        _ => p.push_str(&format!("{{{core}}}\\the\\{k}1|")),
+    }
+    p
+}
+
+fn check_arith(idx: u64, kind: Kind, op: Op, a: i64, b: i64, variant: &str, acc: &mut Acc) {
+    acc.eval();
+    let prog = arith_program(kind, op, a, b, variant);
+    let case = || json!({"kind": "arith", "target": kind.name(), "op": op.name(), "a": a, "b": b, "variant": variant, "program": prog});
+    let m = model_arith(kind, op, a, b);
+    let limit = if kind == Kind::Count || op != Op::Multiply { MAXI } else { MAXD };
+    if let Some(r) = &m {
+        match r {
+            Ok(v) if *v != a => acc.nontrivial(),
+            Err(()) => acc.nontrivial(),
+            _ => {}
+        }
+        match (op, r) {
+            (Op::Multiply, Ok(v)) if v.abs() == limit => acc.count("product_exactly_at_limit"),
+            (Op::Multiply, Err(())) if (a * b).abs() == limit + 1 => acc.count("product_one_beyond_limit"),
+            (Op::Advance, Ok(v)) if *v != a + b && b.abs() <= MAXD => acc.count("advance_wraps"),
+            (Op::Divide, Ok(v)) if b != 0 && a % b != 0 && (a < 0) != (b < 0) && *v * b != a => acc.count("division_truncates_toward_zero_negative"),
+            (Op::Divide, Err(())) => acc.count("division_by_zero"),
+            _ => {}
+        }
+    }
+    let (want_out, want_errs): (Option<String>, usize) = match &m {
+        None => (None, 0),
+        Some(r) => {
+            let (new, errs) = match r {
+                Ok(v) => (*v, if op == Op::Advance && kind == Kind::Dimen && b.abs() > MAXD { 1 } else { 0 }),
+                Err(()) => (a, 1),
+            };
+            let o = match variant {
+                "plain" => format!("|{}|", show(kind, new)),
+                "global" => format!("|{}|{}|", show(kind, new), show(kind, new)),
+                _ => format!("|{}|{}|", show(kind, new), show(kind, a)),
+            };
+            (Some(o), errs)
+        }
+    };
+    match run_program(&prog) {
+        Err(p) => {
+            acc.class(&format!("DISAGREE panic at {}", p.source_line()));
+            dbgc(&format!("DISAGREE panic at {}", p.source_line()), &case());
+            acc.fail(idx, case(), format!("{want_out:?} errors={want_errs}"), p.describe(), if m.is_none() { "panic (operand -2^31 is outside TeX's range; the requirement is: no panic)" } else { "panic" });
+        }
+        Ok(obs) => {
+            let Some(want_out) = want_out else {
+                acc.class("operand -2^31: not defined by tex.web, no panic");
+                acc.count("undefined_by_texweb_no_panic");
+                return;
+            };
+            let titles_ok = obs.errors.iter().all(|t| t.starts_with("overflow in checked") || t == "division by zero" || t.starts_with("expected a dimension in the range"));
+            if obs.fatal.is_none() && obs.out == want_out && obs.errors.len() == want_errs && titles_ok {
+                acc.class(&format!("agree {} {} errors={want_errs}", op.name(), kind.name()));
+            } else {
+                let class = if obs.out != want_out && obs.errors.len() == want_errs {
+                    "value differs"
+                } else if obs.errors.len() < want_errs && op == Op::Advance {
+                    "TeX reports 'Dimension too large' for an operand register beyond +-(2^30-1) and adds max_dimen, crate adds the raw value silently"
+                } else if obs.errors.len() < want_errs {
+                    "TeX reports arithmetic overflow, crate accepts"
+                } else if obs.errors.len() > want_errs {
+                    "crate reports an error, TeX accepts"
+                } else {
+                    "other"
+                };
+                acc.class(&format!("DISAGREE \\{} \\{}: {class}", op.name(), kind.name()));
+                dbgc(&format!("DISAGREE \\{} \\{}: {class}", op.name(), kind.name()), &case());
+                acc.fail(idx, case(), format!("{want_out:?} errors={want_errs}"), format!("{:?} errors={:?} fatal={:?}", obs.out, obs.errors, obs.fatal), class);
+            }
+        }
+    }
+}
+
+/// Glue: `\skip1=<g> \op\skip1 by <rhs>`; rhs is a glue (advance, given by `\skip2`) or an integer.
+fn model_glue(op: Op, g: &Glue, rhs_g: &Glue, n: i64) -> Option<Result<Glue, ()>> {
+    match op {
+        Op::Advance => {
+            let mut q = scanum::add_glue(rhs_g, g);
+            q.width = scanum::wrap32(q.width);
+            q.stretch = scanum::wrap32(q.stretch);
+            q.shrink = scanum::wrap32(q.shrink);
+            Some(Ok(q))
+        }
+        Op::Multiply => {
+            if n == MINI || g.width == MINI || g.stretch == MINI || g.shrink == MINI {
+                return None;
+            }
+            // §1240: nx_plus_y(width(s), cur_val, 0) for each component; arith_error is sticky
+            let w = arith::nx_plus_y(g.width, n, 0);
+            let st = arith::nx_plus_y(g.stretch, n, 0);
+            let sh = arith::nx_plus_y(g.shrink, n, 0);
+            Some(match (w, st, sh) {
+                (Ok(w), Ok(st), Ok(sh)) => Ok(Glue { width: w, stretch: st, shrink: sh, ..*g }),
+                _ => Err(()),
+            })
+        }
+        Op::Divide => {
+            if n == 0 {
+                return Some(Err(()));
+            }
+            if n == MINI || g.width == MINI || g.stretch == MINI || g.shrink == MINI {
+                return None;
+            }
+            Some(Ok(Glue { width: arith::x_over_n(g.width, n).unwrap().0, stretch: arith::x_over_n(g.stretch, n).unwrap().0, shrink: arith::x_over_n(g.shrink, n).unwrap().0, ..*g }))
+        }
+    }
+}
+fn glue_program(op: Op, g: &Glue, rhs_g: &Glue, n: i64, followup: bool) -> String {
+    let mut p = String::from(PREAMBLE);
+    p.push_str(&set_skip(1, g));
+    let rhs = if op == Op::Advance {
+        p.push_str(&set_skip(2, rhs_g));
+        "\\skip2 ".to_string()
+    } else if n == MINI {
+        p.push_str(&set_count(2, n));
+        "\\count2 ".to_string()
+    } else {
+        format!("{n}")
+    };
+    p.push_str(&format!("\\{} \\skip1 by {rhs}\\relax|\\the\\skip1|", op.name()));
+    if followup {
+        // make orders that are hidden behind a zero stretch/shrink visible
+        p.push_str("\\advance\\skip1 by 0pt plus 1pt minus 1pt\\relax\\the\\skip1|");
+    }
+    p
+}
+fn check_glue_arith(idx: u64, op: Op, gi: usize, ri: usize, n: i64, acc: &mut Acc) {
+    acc.eval();
+    let gl = glue_lattice();
+    let (g, rhs_g) = (gl[gi], gl[ri]);
+    let prog = glue_program(op, &g, &rhs_g, n, true);
+    let case = || json!({"kind": "glue-arith", "op": op.name(), "g": gi, "rhs": ri, "n": n, "program": prog});
+    let m = model_glue(op, &g, &rhs_g, n);
+    let probe = Glue { width: 0, stretch: 65536, stretch_order: 0, shrink: 65536, shrink_order: 0 };
+    let followup = |x: &Glue| {
+        let mut q = scanum::add_glue(&probe, x);
+        q.width = scanum::wrap32(q.width);
+        q.stretch = scanum::wrap32(q.stretch);
+        q.shrink = scanum::wrap32(q.shrink);
+        scanum::print_spec(&q)
+    };
+    if let Some(r) = &m {
+        match r {
+            Ok(v) if *v != g => acc.nontrivial(),
+            Err(()) => acc.nontrivial(),
+            _ => {}
+        }
+        if op == Op::Advance {
+            if rhs_g.stretch == 0 && rhs_g.stretch_order > 0 || rhs_g.shrink == 0 && rhs_g.shrink_order > 0 {
+                acc.count("glue_sum_zero_component_with_order_scanned");
+            }
+            if g.stretch == 0 && g.stretch_order > rhs_g.stretch_order || g.shrink == 0 && g.shrink_order > rhs_g.shrink_order {
+                acc.count("glue_sum_zero_component_with_higher_order_in_register");
+            }
+            if g.stretch_order != rhs_g.stretch_order {
+                acc.count("glue_sum_orders_differ");
+            }
+        }
+    }
+    let want: Option<(String, usize)> = m.map(|r| match r {
+        Ok(v) => (format!("|{}|{}|", scanum::print_spec(&v), followup(&v)), 0),
+        Err(()) => (format!("|{}|{}|", scanum::print_spec(&g), followup(&g)), 1),
+    });
+    match run_program(&prog) {
+        Err(p) => {
+            acc.class(&format!("DISAGREE panic at {}", p.source_line()));
+            dbgc(&format!("DISAGREE panic at {}", p.source_line()), &case());
+            acc.fail(idx, case(), format!("{want:?}"), p.describe(), if m.is_none() { "panic (operand -2^31 is outside TeX's range; the requirement is: no panic)" } else { "panic" });
+        }
+        Ok(obs) => {
+            let Some((want_out, want_errs)) = want else {
+                acc.class("operand -2^31: not defined by tex.web, no panic");
+                acc.count("undefined_by_texweb_no_panic");
+                return;
+            };
+            if obs.fatal.is_none() && obs.out == want_out && obs.errors.len() == want_errs {
+                acc.class(&format!("agree {} skip errors={want_errs}", op.name()));
+            } else {
+                let first = |s: &str| s.split('|').nth(1).unwrap_or("").to_string();
+                let class = if obs.errors.len() < want_errs {
+                    "TeX reports arithmetic overflow, crate accepts"
+                } else if obs.errors.len() > want_errs {
+                    "crate reports an error, TeX accepts"
+                } else if first(&obs.out) != first(&want_out) {
+                    "value differs"
+                } else {
+                    "same printed value, but a later \\advance shows that a zero stretch/shrink kept its order (tex.web §1239)"
+                };
+                acc.class(&format!("DISAGREE \\{} \\skip: {class}", op.name()));
+                dbgc(&format!("DISAGREE \\{} \\skip: {class}", op.name()), &case());
+                acc.fail(idx, case(), format!("{want_out:?} errors={want_errs}"), format!("{:?} errors={:?} fatal={:?}", obs.out, obs.errors, obs.fatal), class);
+            }
+        }
+    }
+}
+
+/// Print -> scan through the VM: `\dimen0=<s>sp \dimen2=\the\dimen0 \the\dimen2`, 8 values per program.
+fn check_vm_roundtrip(idx: u64, vals: &[i64], acc: &mut Acc) {
+    acc.eval();
+    acc.nontrivial();
+    let mut prog = String::from(PREAMBLE);
+    let mut want = String::new();
+    for s in vals {
+        prog.push_str(&set_dimen(0, *s));
+        prog.push_str("\\dimen2=\\the\\dimen0 \\relax\\the\\dimen0,\\the\\dimen2;");
+        let p = arith::print_scaled(*s);
+        if s.abs() <= MAXD {
+            want.push_str(&format!("{p}pt,{p}pt;"));
+        } else {
+            // printable but not scannable: "Dimension too large", clamped
+            want.push_str(&format!("{p}pt,{}16383.99998pt;", if *s < 0 { "-" } else { "" }));
+        }
+    }
+    let nerr = vals.iter().filter(|s| s.abs() > MAXD).count();
+    let case = || json!({"kind": "vm-roundtrip", "values": vals, "program": prog});
+    match run_program(&prog) {
+        Err(p) => acc.fail(idx, case(), want, p.describe(), "panic"),
+        Ok(obs) => {
+            if obs.out != want || obs.fatal.is_some() || obs.errors.len() != nerr {
+                acc.class("DISAGREE \\the\\dimen does not scan back");
+                dbgc("DISAGREE \\the\\dimen does not scan back", &case());
+                acc.fail(idx, case(), format!("{want} errors={nerr}"), format!("{} errors={:?} fatal={:?}", obs.out, obs.errors, obs.fatal), "\\dimen2=\\the\\dimen0 does not reproduce the value");
+            }
+        }
+    }
+}
+
+// ------------------------------------------------------------------ (c) kernels
+
+fn kernel_ranges(quick: bool) -> Vec<(i64, i64)> {
+    if !quick {
+        return vec![(MINI, MAXI + 1)];
+    }
+    let mut r: Vec<(i64, i64)> = vec![(-(1 << 20), 1 << 20)];
+    for k in 20..=31u32 {
+        let p = 1i64 << k;
+        r.push((p - 4096, p + 4096));
+        r.push((-p - 4096, -p + 4096));
+    }
+    merge_ranges(r, MINI, MAXI + 1)
+}
+/// Multipliers / divisors of the sweeps. -2^31 is not here: it is outside TeX's range for every x, and is
+/// exercised by the `kernel-extremes` family on the lattice instead.
+const KM: [i64; 23] = [-MAXI, -(MAXD + 1), -MAXD, -65537, -65536, -65535, -255, -7, -3, -2, -1, 0, 1, 2, 3, 7, 255, 65535, 65536, 65537, MAXD, MAXD + 1, MAXI];
+fn kernel_multipliers() -> &'static [i64; 23] {
+    &KM
+}
+const XN_PAIRS: [(i64, i64); 14] = [(1, 1), (12, 1), (7227, 100), (7227, 7200), (7227, 254), (7227, 2540), (1238, 1157), (14856, 1157), (0, 65536), (1, 65536), (32768, 65536), (65535, 65536), (65536, 65536), (1000, 2000)];
+const NXY_Y: [i64; 5] = [0, 1, -1, MAXD, -MAXD];
+/// (n, y) pairs of the nx_plus_y sweep: every multiplier with y = 0, the small multipliers with every y.
+fn nxy_pairs() -> &'static Vec<(i64, i64)> {
+    static P: std::sync::OnceLock<Vec<(i64, i64)>> = std::sync::OnceLock::new();
+    P.get_or_init(|| {
+        let mut v: Vec<(i64, i64)> = KM.iter().map(|n| (*n, 0)).collect();
+        for n in [-7i64, -3, -2, -1, 1, 2, 3, 7] {
+            for y in &NXY_Y[1..] {
+                v.push((n, *y));
+            }
+        }
+        for n in [65536i64, -65536, MAXD] {
+            v.push((n, 1));
+            v.push((n, -1));
+        }
+        v
+    })
+}
+
+#[derive(Clone, Copy, Debug, PartialEq, Eq)]
+enum Kernel {
+    NxPlusY,
+    XnOverD,
+    Div,
+}
+type KOut = Result<(i64, i64), ()>;
+fn kernel_impl(k: Kernel, x: i64, p: usize) -> KOut {
+    let sx = Scaled(x as i32);
+    match k {
+        Kernel::NxPlusY => {
+            let (n, y) = nxy_pairs()[p];
+            sx.nx_plus_y(n as i32, Scaled(y as i32)).map(|s| (s.0 as i64, 0)).map_err(|_| ())
+        }
+        Kernel::XnOverD => {
+            let (n, d) = XN_PAIRS[p];
+            sx.xn_over_d(n as i32, d as i32).map(|(q, r)| (q.0 as i64, r.0 as i64)).map_err(|_| ())
+        }
+        Kernel::Div => {
+            let n = kernel_multipliers()[p];
+            sx.checked_div(n as i32).map(|s| (s.0 as i64, 0)).ok_or(())
+        }
+    }
+}
+/// None: tex.web undefined for these operands (an operand is -2^31).
+fn kernel_model(k: Kernel, x: i64, p: usize) -> Option<KOut> {
+    match k {
+        Kernel::NxPlusY => {
+            let (n, y) = nxy_pairs()[p];
+            if x == MINI || n == MINI {
+                return None;
+            }
+            Some(arith::nx_plus_y(n, x, y).map(|v| (v, 0)))
+        }
+        Kernel::XnOverD => {
+            let (n, d) = XN_PAIRS[p];
+            if x == MINI {
+                return None;
+            }
+            Some(arith::xn_over_d(x, n, d))
+        }
+        Kernel::Div => {
+            let n = kernel_multipliers()[p];
+            if n == 0 {
+                return Some(Err(()));
+            }
+            if x == MINI || n == MINI {
+                return None;
+            }
+            Some(arith::x_over_n(x, n).map(|v| (v.0, 0)))
+        }
+    }
+}
+fn kernel_params(k: Kernel) -> usize {
+    match k {
+        Kernel::NxPlusY => nxy_pairs().len(),
+        Kernel::XnOverD => XN_PAIRS.len(),
+        Kernel::Div => kernel_multipliers().len(),
+    }
+}
+fn kernel_name(k: Kernel) -> &'static str {
+    match k {
+        Kernel::NxPlusY => "nx_plus_y",
+        Kernel::XnOverD => "xn_over_d",
+        Kernel::Div => "checked_div",
+    }
+}
+fn kernel_from(s: &str) -> Kernel {
+    match s {
+        "nx_plus_y" => Kernel::NxPlusY,
+        "xn_over_d" => Kernel::XnOverD,
+        _ => Kernel::Div,
+    }
+}
+fn kernel_param_json(k: Kernel, p: usize) -> Value {
+    match k {
+        Kernel::NxPlusY => json!({"n": nxy_pairs()[p].0, "y": nxy_pairs()[p].1}),
+        Kernel::XnOverD => json!({"n": XN_PAIRS[p].0, "d": XN_PAIRS[p].1}),
+        Kernel::Div => json!({"n": kernel_multipliers()[p]}),
+    }
+}
+fn check_kernel_one(idx: u64, k: Kernel, x: i64, p: usize, acc: &mut Acc) {
+    let m = kernel_model(k, x, p);
+    let case = || json!({"kind": "kernel", "kernel": kernel_name(k), "x": x, "p": p, "param": kernel_param_json(k, p)});
+    match catch(|| kernel_impl(k, x, p)) {
+        Err(pn) => {
+            acc.class(&format!("DISAGREE {} panics at {}", kernel_name(k), pn.source_line()));
+            dbgc(&format!("DISAGREE {} panics at {}", kernel_name(k), pn.source_line()), &case());
+            acc.fail(idx, case(), format!("{m:?}"), pn.describe(), if m.is_none() { "panic (operand -2^31 is outside TeX's range; the requirement is: no panic)" } else { "panic" })
+        }
+        Ok(got) => {
+            if let Some(want) = m {
+                if got != want {
+                    acc.class(&format!("DISAGREE {} value", kernel_name(k)));
+                    dbgc(&format!("DISAGREE {} value", kernel_name(k)), &case());
+                    acc.fail(idx, case(), format!("{want:?}"), format!("{got:?}"), "kernel differs from tex.web §105-107");
+                }
+            }
+        }
+    }
+}
+/// All parameters for the values of one index range; the common path runs under one `catch`.
+fn check_kernel_range(k: Kernel, ranges: &[(i64, i64)], cum: &[u64], r: std::ops::Range<u64>, acc: &mut Acc) {
+    let np = kernel_params(k);
+    // fast path: 4096 values under one catch; fall back to per-case on any disagreement or panic
+    let mut lo = r.start;
+    while lo < r.end {
+        let hi = (lo + 4096).min(r.end);
+        let batch_ok = catch(|| {
+            let mut counts = (0u64, 0u64, 0u64); // (evals, nontrivial, overflow)
+            for idx in lo..hi {
+                let x = nth_in_ranges(ranges, cum, idx);
+                for p in 0..np {
+                    let m = kernel_model(k, x, p);
+                    let got = kernel_impl(k, x, p);
+                    counts.0 += 1;
+                    if let Some(w) = m {
+                        if w != got {
+                            return (false, counts);
+                        }
+                        if w.is_err() {
+                            counts.2 += 1;
+                        }
+                        counts.1 += 1;
+                    }
+                }
+            }
+            (true, counts)
+        });
+        match batch_ok {
+            Ok((true, c)) => {
+                acc.evals += c.0;
+                acc.nontrivial += c.1;
+                acc.count_n("kernel_overflow_or_div0_cases", c.2);
+            }
+            _ => {
+                for idx in lo..hi {
+                    let x = nth_in_ranges(ranges, cum, idx);
+                    for p in 0..np {
+                        acc.eval();
+                        match kernel_model(k, x, p) {
+                            Some(Err(())) => {
+                                acc.count("kernel_overflow_or_div0_cases");
+                                acc.nontrivial();
+                            }
+                            Some(Ok(_)) => acc.nontrivial(),
+                            None => {}
+                        }
+                        check_kernel_one(idx, k, x, p, acc);
+                    }
+                }
+            }
+        }
+        lo = hi;
+    }
+}
+
+fn check_extreme(idx: u64, which: usize, x: i64, n: i64, y: i64, acc: &mut Acc) {
+    acc.eval();
+    let undefined = x == MINI || n == MINI;
+    let case = || json!({"kind": "extreme", "which": which, "x": x, "n": n, "y": y});
+    let sx = Scaled(x as i32);
+    let (name, want, got): (&str, Option<Result<i64, ()>>, Result<Result<i64, ()>, vcore::Panic>) = match which {
+        0 => ("nx_plus_y", if undefined { None } else { Some(arith::nx_plus_y(n, x, y)) }, catch(|| sx.nx_plus_y(n as i32, Scaled(y as i32)).map(|s| s.0 as i64).map_err(|_| ()))),
+        1 => ("checked_mul", if undefined { None } else { Some(arith::nx_plus_y(n, x, 0)) }, catch(|| sx.checked_mul(n as i32).map(|s| s.0 as i64).ok_or(()))),
+        _ => ("checked_div", if n == 0 { Some(Err(())) } else if undefined { None } else { Some(arith::x_over_n(x, n).map(|v| v.0)) }, catch(|| sx.checked_div(n as i32).map(|s| s.0 as i64).ok_or(()))),
+    };
+    if want.is_some() {
+        acc.nontrivial();
+    } else {
+        acc.count("undefined_by_texweb_no_panic");
+    }
+    match got {
+        Err(p) => {
+            acc.class(&format!("DISAGREE {name} panics at {}", p.source_line()));
+            acc.fail(idx, case(), format!("{want:?}"), p.describe(), if want.is_none() { "panic (operand -2^31 is outside TeX's range; the requirement is: no panic)" } else { "panic" })
+        }
+        Ok(g) => {
+            if let Some(w) = want {
+                if w != g {
+                    acc.class(&format!("DISAGREE {name} value"));
+                    acc.fail(idx, case(), format!("{w:?}"), format!("{g:?}"), "kernel differs from tex.web §105-106");
+                }
+            }
+        }
+    }
+}
+
+fn check_decimal_digits(idx: u64, digits: &[u8], acc: &mut Acc) {
+    acc.eval();
+    let want = arith::round_decimals(digits);
+    if want != 0 {
+        acc.nontrivial();
+    }
+    if want == 65536 {
+        acc.count("fraction_rounds_up_to_one");
+    }
+    let case = || json!({"kind": "digits", "digits": digits});
+    match catch(|| Scaled::from_decimal_digits(digits).0 as i64) {
+        Err(p) => acc.fail(idx, case(), want.to_string(), p.describe(), "panic"),
+        Ok(got) => {
+            if got != want {
+                acc.class("DISAGREE from_decimal_digits");
+                dbgc("DISAGREE from_decimal_digits", &case());
+                acc.fail(idx, case(), want.to_string(), got.to_string(), "from_decimal_digits differs from round_decimals (tex.web §102)");
+            }
+        }
+    }
+}
+
+const UNITS9: [(ScaledUnit, &str); 9] = [
+    (ScaledUnit::Point, "pt"),
+    (ScaledUnit::Pica, "pc"),
+    (ScaledUnit::Inch, "in"),
+    (ScaledUnit::BigPoint, "bp"),
+    (ScaledUnit::Centimeter, "cm"),
+    (ScaledUnit::Millimeter, "mm"),
+    (ScaledUnit::DidotPoint, "dd"),
+    (ScaledUnit::Cicero, "cc"),
+    (ScaledUnit::ScaledPoint, "sp"),
+];
+/// `Scaled::new(int, frac, unit)` against §453-458 run on "<int><unit>" with the fraction injected.
+fn model_new(int: i64, frac: i64, unit: &str) -> Result<i64, ()> {
+    // the same arithmetic as Scanner::scan_dimen after the constant was scanned
+    let (mut cur_val, mut f) = (int, frac);
+    let conv = match unit {
+        "pt" => None,
+        "pc" => Some((12, 1)),
+        "in" => Some((7227, 100)),
+        "bp" => Some((7227, 7200)),
+        "cm" => Some((7227, 254)),
+        "mm" => Some((7227, 2540)),
+        "dd" => Some((1238, 1157)),
+        "cc" => Some((14856, 1157)),
+        _ => {
+            return if cur_val >= 1 << 30 { Err(()) } else { Ok(cur_val) };
+        }
+    };
+    if let Some((num, denom)) = conv {
+        let (q, rem) = arith::xn_over_d(cur_val, num, denom)?;
+        cur_val = q;
+        f = (num * f + 65536 * rem) / denom;
+        cur_val += f / 65536;
+        f %= 65536;
+    }
+    if cur_val >= 0o40000 {
+        return Err(());
+    }
+    let v = cur_val * 65536 + f;
+    if v >= 1 << 30 {
+        Err(())
+    } else {
+        Ok(v)
+    }
+}
+fn check_new(idx: u64, int: i64, frac: i64, u: usize, acc: &mut Acc) {
+    acc.eval();
+    let (unit, name) = UNITS9[u];
+    let want = model_new(int, frac, name);
+    if want != Ok(0) {
+        acc.nontrivial();
+    }
+    if want.is_err() {
+        acc.count("scaled_new_overflow");
+    } else if want == Ok(MAXD) {
+        acc.count("scaled_new_exactly_max");
+    }
+    let case = || json!({"kind": "new", "int": int, "frac": frac, "unit": u});
+    match catch(|| Scaled::new(int as i32, Scaled(frac as i32), unit).map(|s| s.0 as i64).map_err(|_| ())) {
+        Err(p) => {
+            acc.class(&format!("DISAGREE Scaled::new panics at {}", p.source_line()));
+            dbgc(&format!("DISAGREE Scaled::new panics at {}", p.source_line()), &case());
+            acc.fail(idx, case(), format!("{want:?}"), p.describe(), "panic")
+        }
+        Ok(got) => {
+            if got != want {
+                acc.class(&format!("DISAGREE Scaled::new {name}"));
+                dbgc(&format!("DISAGREE Scaled::new {name}"), &case());
+                acc.fail(idx, case(), format!("{want:?}"), format!("{got:?}"), "Scaled::new differs from tex.web §453-458");
+            }
+        }
+    }
+}
+
+// ------------------------------------------------------------------ main
+
+fn self_validate(ctx: &mut Ctx) {
+    let lexd = |s: &str| {
+        let mut t = lex(s, &default_regs()).unwrap();
+        t.push(Tok::Cs(None));
+        let mut sc = Scanner::new(t);
+        sc.em = 12 << 16;
+        sc.ex = 12 << 16;
+        sc
+    };
+    let mut bad = vec![];
+    // crates/texlang/src/parse/dimen.rs: parse_success_tests / parse_failure_tests
+    for (s, v, nerr) in [
+        ("0.075in", 355207i64, 0usize), // units_in_3
+        ("1 in", 65536 * 7227 / 100, 0), // units_in_2
+        ("1cm", 65536 * 7227 / 254, 0), // units_cm
+        ("1mm", 65536 * 7227 / 2540, 0), // units_mm
+        ("1bp", 65536 * 7227 / 7200, 0), // units_bp
+        ("1dd", 65536 * 1238 / 1157, 0), // units_dd
+        ("1cc", 65536 * 14856 / 1157, 0), // units_cc
+        ("1.999999sp", 1, 0), // units_sp_2
+        ("16383.99998pt", MAXD, 0), // nearly_overflow_pt
+        ("1073741823.99999999sp", MAXD, 0), // nearly_overflow_sp_2
+        ("16384pt", MAXD, 1), // overflow_pt
+        ("-300000000in", -MAXD, 1), // overflow_in_4
+        ("-1073741824sp", -MAXD, 1), // overflow_sp_neg
+        ("1xy", 65536, 1), // invalid_unit
+    ] {
+        let mut sc = lexd(s);
+        let got = sc.scan_dimen(false, None).0;
+        if got != v || sc.errors.len() != nerr {
+            bad.push(format!("scan_dimen({s}) = {got} errors {:?}, repository test expects {v} with {nerr} error(s)", sc.errors));
+        }
+    }
+    // crates/texlang/src/parse/integer.rs: parse_success_tests / parse_failure_tests
+    for (s, v, nerr) in [("'17777777777", MAXI, 0usize), ("-\"7FFFFFFF", -MAXI, 0), ("`A", 65, 0), ("  -  - 4", 4, 0), ("00019", 19, 0), ("2147483648", MAXI, 1), ("-5000000000000", -MAXI, 1), ("'177777777770", MAXI, 1), ("\"", 0, 1), ("A", 0, 1)] {
+        let mut sc = lexd(s);
+        let got = sc.scan_int();
+        if got != v || sc.errors.len() != nerr {
+            bad.push(format!("scan_int({s}) = {got} errors {:?}, repository test expects {v} with {nerr} error(s)", sc.errors));
+        }
+    }
+    // crates/texlang/src/parse/glue.rs: stretch_filll, stretch_overflow_2, stretch_fillll
+    for (s, want, nerr) in [("1pt plus 1filll", "1.0pt plus 1.0filll", 0usize), ("1pt plus -30000000fil", "1.0pt plus -16383.99998fil", 1), ("1pt plus 2fillll", "1.0pt plus 2.0filll", 1)] {
+        let mut sc = lexd(s);
+        let g = sc.scan_glue();
+        if scanum::print_spec(&g) != want || sc.errors.len() != nerr {
+            bad.push(format!("scan_glue({s}) = {} errors {:?}, repository test expects {want}", scanum::print_spec(&g), sc.errors));
+        }
+    }
+    // crates/common/src/lib.rs: print_smallest_scaled, parse_no_units_tests
+    if arith::print_scaled(MINI) != "-32768.0" || arith::print_scaled(18205) != "0.27779" {
+        bad.push("print_scaled differs from the repository's recorded values".into());
+    }
+    // crates/texlang-stdlib/src/math.rs tests: \divide truncation, \multiply overflow
+    if model_arith(Kind::Count, Op::Divide, -7, 2) != Some(Ok(-3)) || model_arith(Kind::Count, Op::Multiply, 100000, 100000) != Some(Err(())) {
+        bad.push("arithmetic model differs from the repository's math tests".into());
+    }
+    for b in bad {
+        ctx.machinery_error(format!("model self-validation: {b}"));
+    }
+}
+
 fn main() {
-    eprintln!("c06: check not built yet");
-    std::process::exit(2);
+    let mut ctx = Ctx::new("C06", Level::Exploration);
+    ctx.assume("\\mag is 1000 (the crate has no \\mag): `true` is scanned and changes nothing, as tex.web §457 does for mag=1000");
+    ctx.assume("em and ex are 12pt (TexlangState defaults of the harness state); the model takes them as parameters");
+    ctx.assume("operands equal to -2^31 are outside TeX's integer range (tex.web negates them, a Pascal range violation): for them only 'no panic' is required, except for \\advance where the property states wrap-around");
+    ctx.assume("unit and glue keywords are written with category-11 letters; character codes above 255 are legal in alphabetic constants (Unicode engine)");
+    ctx.assume("texts in which TeX itself finds no well-formed constant (no digit: 'Missing number'; no unit: 'Illegal unit of measure'; 'Improper alphabetic constant') are outside the property's quantifier (the crate deliberately makes some of these fatal and is lenient for others): only 'no panic' is required for them; error recovery is C09's subject");
+    ctx.assume("mu units and \\fontdimen-dependent em/ex are outside the crate's surface");
+    self_validate(&mut ctx);
+
+    if let Some((_fam, case)) = ctx.replay_case() {
+        let mut acc = Acc::default();
+        replay(&case, &mut acc);
+        ctx.finish_replay(acc);
+    }
+    let quick = ctx.quick();
+
+    // (a) print / scan of every scaled value
+    {
+        let ranges = value_ranges(quick);
+        let (cum, n) = cumulate(&ranges);
+        let bounds = if quick { "scaled values of both signs with |s| < 2^24, within 2^16 of 2^k (k=24..31), within 64 of every multiple of 65536; print for all, scan back for |s| <= 2^30-1" } else { "all 2^32 scaled values: print for all, scan back (parse_no_units, parse_from_string) for all 2^31-1 values |s| <= 2^30-1" };
+        let (r, c) = (&ranges, &cum);
+        ctx.family_ranges("print-scan", bounds, n, |rg, acc| {
+            for idx in rg {
+                let m = nth_in_ranges(r, c, idx);
+                if m <= MAXI {
+                    check_print_scan(idx, m, acc);
+                }
+                if m > 0 {
+                    check_print_scan(idx, -m, acc);
+                }
+            }
+        });
+    }
+    // (a') the same round trip through \the and the VM's scanner
+    {
+        let mut vals: Vec<i64> = (-ctx.pick(2048i64, 65536)..=ctx.pick(2048, 65536)).collect();
+        for k in 11..=31u32 {
+            for d in -ctx.pick(8i64, 64)..=ctx.pick(8, 64) {
+                for s in [1i64, -1] {
+                    let v = s * (1i64 << k) + d;
+                    if (MINI..=MAXI).contains(&v) {
+                        vals.push(v);
+                    }
+                }
+            }
+        }
+        vals.sort();
+        vals.dedup();
+        let chunks: Vec<Vec<i64>> = vals.chunks(8).map(|c| c.to_vec()).collect();
+        let ch = &chunks;
+        ctx.family("vm-print-scan", &format!("\\dimen2=\\the\\dimen0 for {} values: |s| <= {} and +-{} around +-2^k (k=11..31), 8 per program", vals.len(), ctx.pick(2048, 65536), ctx.pick(8, 64)), chunks.len() as u64, |i, acc| check_vm_roundtrip(i, &ch[i as usize], acc));
+    }
+    // (b1) every short fraction in every unit
+    {
+        let fr = fractions(ctx.pick(2, 4));
+        let signs = ["", "-"];
+        let ints = ["", "0", "1", "16383"];
+        let rad = [signs.len() as u64, ints.len() as u64, fr.len() as u64, BASE_UNITS.len() as u64];
+        let f = &fr;
+        ctx.family("const-dimen-fractions", &format!("\\dimen0=<sign><int><frac><unit>: signs {signs:?} x integer parts {ints:?} x {} fractions (every digit string of length <= {}, 9..9 / 0..01 / 49..9 / 50..0 up to 20 digits, binary ties, continental commas) x 11 units", fr.len(), ctx.pick(2, 4)), vcore::product(&rad), |i, acc| {
+            let d = vcore::digits(i, &rad);
+            let src = format!("{}{}{}{}", signs[d[0] as usize], ints[d[1] as usize], f[d[2] as usize], BASE_UNITS[d[3] as usize]);
+            check_const(i, Kind::Dimen, &default_regs(), &src, acc);
+            if i % 4099 == 17 {
+                acc.sample(i, || json!({"constant": src}));
+            }
+        });
+    }
+    // (b2) boundaries: every sign string x integer part x boundary fraction x unit spelling
+    {
+        let ints = int_parts();
+        let fr: Vec<&str> = if quick { vec!["", ".5", ".999999", ".00000762939453125", ",5", " .5"] } else { boundary_fractions() };
+        let units = all_units();
+        let signs: Vec<&str> = if quick { vec!["", "-", "- +-", " -"] } else { SIGNS.to_vec() };
+        let rad = [signs.len() as u64, ints.len() as u64, fr.len() as u64, units.len() as u64];
+        let (ints, fr, units, signs) = (&ints, &fr, &units, &signs);
+        ctx.family("const-dimen-boundaries", &format!("\\dimen0=<sign><int><frac><unit>: {} sign strings x {} integer parts (decimal/octal/hex/alphabetic/internal at 0,1,7,16383,16384,2^30-1,2^30,2^31-1,2^31, 20 digits, empty, vacuous) x {} fractions x {} unit spellings (all units, true, upper case, spaces, macros expanding to spaces, internal quantities as units, unknown)", signs.len(), ints.len(), fr.len(), units.len()), vcore::product(&rad), |i, acc| {
+            let d = vcore::digits(i, &rad);
+            let src = format!("{}{}{}{}", signs[d[0] as usize], ints[d[1] as usize], fr[d[2] as usize], units[d[3] as usize]);
+            check_const(i, Kind::Dimen, &default_regs(), &src, acc);
+        });
+    }
+    // (b3) integer constants
+    {
+        let ints = int_parts();
+        let tails = ["", " ", "  ", "\\s\\s ", "pt", ".5", " 1", "A", "a"];
+        let rad = [SIGNS.len() as u64, ints.len() as u64, tails.len() as u64];
+        let ints = &ints;
+        ctx.family("const-int", &format!("\\count0=<sign><int><tail>: {} sign strings x {} integer parts x tails {tails:?}", SIGNS.len(), ints.len()), vcore::product(&rad), |i, acc| {
+            let d = vcore::digits(i, &rad);
+            let src = format!("{}{}{}", SIGNS[d[0] as usize], ints[d[1] as usize], tails[d[2] as usize]);
+            check_const(i, Kind::Count, &default_regs(), &src, acc);
+        });
+    }
+    // (b4) glue
+    {
+        let widths = ["0pt", "1pt", "-1.5pt ", "16384pt", "\\dimen1 ", "\\count1 pt", "-\\count1 sp", "\\skip1 ", "-\\skip1 ", "1", ".5\\dimen1 "];
+        let comps = [
+            "", "1pt", "1fil", " 1.5fill", "-2filll", "1fillll", "1fil l", "1 fil", "1FIL", "1fil ", "30000000fil", "-30000000fill", "0fil", "\\dimen1 ", "1\\dimen1 ", "-.5\\skip1 ", "1fi", "1", "\\count1 fil", "16383.99999fil", "\\s\\s 2filll", "1true pt", "1em", "1truefil",
+        ];
+        let kws = [("plus", "minus"), (" plus ", " minus "), ("\\s\\s plus", "\\s\\s minus"), ("PLUS", "Minus")];
+        let rad = [widths.len() as u64, comps.len() as u64, comps.len() as u64, kws.len() as u64];
+        ctx.family("const-glue", &format!("\\skip0=<width> plus <stretch> minus <shrink>: {} widths x {} stretch x {} shrink components (all orders, fillll, `fil l`, overflow, internal quantities, missing units) x {} keyword spellings/spacings", widths.len(), comps.len(), comps.len(), kws.len()), vcore::product(&rad), |i, acc| {
+            let d = vcore::digits(i, &rad);
+            let (kp, km) = kws[d[3] as usize];
+            let mut src = widths[d[0] as usize].to_string();
+            if !comps[d[1] as usize].is_empty() {
+                src.push_str(kp);
+                src.push_str(comps[d[1] as usize]);
+            }
+            if !comps[d[2] as usize].is_empty() {
+                src.push_str(km);
+                src.push_str(comps[d[2] as usize]);
+            }
+            check_const(i, Kind::Skip, &default_regs(), &src, acc);
+        });
+    }
+    // (b5) coercions and internal quantities as units, over the operand lattice
+    {
+        let lat = lattice();
+        let targets = [Kind::Count, Kind::Dimen, Kind::Skip];
+        let signs = ["", "-", "--"];
+        let heads = ["", "1", "2.5", "0", ".99999", "16384", "2147483647"];
+        let internals = ["\\count1 ", "\\dimen1 ", "\\skip1 "];
+        let tails = ["", "pt", "sp", " plus\\count1 fil"];
+        let rad = [targets.len() as u64, signs.len() as u64, heads.len() as u64, internals.len() as u64, lat.len() as u64, tails.len() as u64];
+        let lat = &lat;
+        ctx.family("const-internal", &format!("\\<count|dimen|skip>0=<sign><head><internal><tail>: signs {signs:?} x heads {heads:?} x internal count/dimen/skip holding each of {} lattice values (incl. +-2^30, +-(2^31-1), -2^31) x tails {tails:?}", lat.len()), vcore::product(&rad), |i, acc| {
+            let d = vcore::digits(i, &rad);
+            let v = lat[d[4] as usize];
+            let regs = Regs { count1: v, dimen1: v, skip1: Glue { width: v, stretch: 65536, stretch_order: 1, shrink: -3, shrink_order: 0 } };
+            let src = format!("{}{}{}{}", signs[d[1] as usize], heads[d[2] as usize], internals[d[3] as usize], tails[d[5] as usize]);
+            check_const(i, targets[d[0] as usize], &regs, &src, acc);
+        });
+    }
+    // (c1) arithmetic on count and dimen
+    {
+        let lat = lattice();
+        let kinds = [Kind::Count, Kind::Dimen];
+        let rad = [VARIANTS.len() as u64, kinds.len() as u64, OPS.len() as u64, lat.len() as u64, lat.len() as u64];
+        let lat = &lat;
+        ctx.family("arith-count-dimen", &format!("\\advance/\\multiply/\\divide on \\count1 and \\dimen1: all pairs of a {}-value lattice (0, +-1,2,3,7,10,1000,46340,46341, +-(2^k-1),2^k,2^k+1 for k=8,14,15,16,29,30, +-(2^31-2), +-(2^31-1), -2^31) x plain / \\global in a group / local in a group", lat.len()), vcore::product(&rad), |i, acc| {
+            let d = vcore::digits(i, &rad);
+            check_arith(i, kinds[d[1] as usize], OPS[d[2] as usize], lat[d[3] as usize], lat[d[4] as usize], VARIANTS[d[0] as usize], acc);
+            if i % 5003 == 11 {
+                acc.sample(i, || json!({"program": arith_program(kinds[d[1] as usize], OPS[d[2] as usize], lat[d[3] as usize], lat[d[4] as usize], VARIANTS[d[0] as usize])}));
+            }
+        });
+    }
+    // (c2) arithmetic on glue
+    {
+        let gl = glue_lattice();
+        let lat = lattice();
+        let n_adv = (gl.len() * gl.len()) as u64;
+        let n_md = (gl.len() * lat.len() * 2) as u64;
+        let (gl, lat) = (&gl, &lat);
+        ctx.family("arith-skip", &format!("\\advance\\skip1 by \\skip2 for all pairs of {} glue values (4 orders, zero components that carry an order, extreme widths) + \\multiply/\\divide\\skip1 by each of {} lattice integers; a follow-up \\advance by `0pt plus 1pt minus 1pt` exposes hidden orders", gl.len(), lat.len()), n_adv + n_md, |i, acc| {
+            if i < n_adv {
+                check_glue_arith(i, Op::Advance, (i / gl.len() as u64) as usize, (i % gl.len() as u64) as usize, 0, acc);
+            } else {
+                let j = i - n_adv;
+                let d = vcore::digits(j, &[2, gl.len() as u64, lat.len() as u64]);
+                check_glue_arith(i, if d[0] == 0 { Op::Multiply } else { Op::Divide }, d[1] as usize, 0, lat[d[2] as usize], acc);
+            }
+        });
+    }
+    // (c3) kernels
+    {
+        let ranges = kernel_ranges(quick);
+        let (cum, n) = cumulate(&ranges);
+        let what = if quick { "x over |x| < 2^20 and +-4096 around +-2^k (k=20..31)" } else { "x over all 2^32 values" };
+        for k in [Kernel::NxPlusY, Kernel::XnOverD, Kernel::Div] {
+            let (r, c) = (&ranges, &cum);
+            let params = match k {
+                Kernel::NxPlusY => format!("(n,y) in {:?}", nxy_pairs()),
+                Kernel::XnOverD => format!("(n,d) in {:?}", XN_PAIRS),
+                Kernel::Div => format!("n in {:?}", kernel_multipliers()),
+            };
+            ctx.family_ranges(&format!("kernel-{}", kernel_name(k)), &format!("Scaled::{}: {what}; {params}", kernel_name(k)), n, |rg, acc| check_kernel_range(k, r, c, rg, acc));
+        }
+        // every kernel on the lattice squared, including -2^31 on either side (only "no panic" is required there)
+        {
+            let lat = lattice();
+            let rad = [3, lat.len() as u64, lat.len() as u64, NXY_Y.len() as u64];
+            let lat = &lat;
+            ctx.family("kernel-extremes", &format!("nx_plus_y(x; n, y), checked_mul(x; n), checked_div(x; n) for x, n over the {}-value lattice (incl. -2^31) and y in {:?}", lat.len(), NXY_Y), vcore::product(&rad), |i, acc| {
+                let d = vcore::digits(i, &rad);
+                check_extreme(i, d[0] as usize, lat[d[1] as usize], lat[d[2] as usize], NXY_Y[d[3] as usize], acc);
+            });
+        }
+        // from_decimal_digits
+        let maxlen = ctx.pick(5u32, 7);
+        let n_short = vcore::strings_upto(10, maxlen);
+        let pats: Vec<Vec<u8>> = {
+            let mut v = vec![];
+            for l in 1..=17usize {
+                for lead in 0..10u8 {
+                    for fill in [0u8, 9, 4, 5] {
+                        for last in [0u8, 1, 4, 5, 9] {
+                            let mut s = vec![fill; l];
+                            s[0] = lead;
+                            s[l - 1] = last;
+                            v.push(s);
+                        }
+                    }
+                }
+            }
+            v
+        };
+        let p = &pats;
+        ctx.family("kernel-from_decimal_digits", &format!("every digit string of length <= {maxlen}; lengths 1..17 with lead digit x fill 0/9/4/5 x last digit 0/1/4/5/9"), n_short + pats.len() as u64, |i, acc| {
+            if i < n_short {
+                let s: Vec<u8> = vcore::nth_string(10, i).into_iter().map(|x| x as u8).collect();
+                check_decimal_digits(i, &s, acc);
+            } else {
+                check_decimal_digits(i, &p[(i - n_short) as usize], acc);
+            }
+        });
+        // Scaled::new
+        let ints: Vec<i64> = {
+            let mut v: Vec<i64> = (0..ctx.pick(20000i64, 1 << 21)).collect();
+            for k in 14..=31u32 {
+                for d in -ctx.pick(64i64, 4096)..=ctx.pick(64, 4096) {
+                    let x = (1i64 << k) + d;
+                    if x <= MAXI {
+                        v.push(x);
+                    }
+                }
+            }
+            // the overflow boundary of every unit: 16384*d/n
+            for (n, d) in XN_PAIRS.iter().take(8) {
+                let b = 16384 * d / n;
+                for x in b - 3..=b + 3 {
+                    v.push(x);
+                }
+            }
+            v.sort();
+            v.dedup();
+            v
+        };
+        let fracs: Vec<i64> = if quick { vec![0, 1, 2, 32767, 32768, 65534, 65535] } else { (0..65536).step_by(257).chain([1, 2, 32767, 32768, 65534, 65535]).collect() };
+        let rad = [ints.len() as u64, fracs.len() as u64, 9];
+        let (ints, fracs) = (&ints, &fracs);
+        ctx.family("kernel-scaled-new", &format!("Scaled::new(int, frac, unit): {} integer parts (0..{}, windows around 2^k for k=14..31, the overflow boundary of every unit) x {} fractions x 9 units", ints.len(), ctx.pick(20000, 1 << 21), fracs.len()), vcore::product(&rad), |i, acc| {
+            let d = vcore::digits(i, &rad);
+            check_new(i, ints[d[0] as usize], fracs[d[1] as usize], d[2] as usize, acc);
+        });
+    }
+
+    dump_classes();
+    ctx.require("five_fraction_digits_needed", "print_scaled needs all five fraction digits");
+    ctx.require("fraction_adjacent_to_an_integer", "fraction part is 1 or 65535 sp (rounding next to a carry)");
+    ctx.require("printed_beyond_max_dimen", "values beyond 2^30-1 are printed");
+    ctx.require("err_dimension_too_large", "a constant overflows 2^30 sp");
+    ctx.require("dimen_exactly_max_without_error", "a constant equals +-(2^30-1) sp exactly");
+    ctx.require("err_number_too_big", "an integer constant overflows 2^31-1");
+    ctx.require("int_exactly_max_without_error", "an integer constant equals +-(2^31-1)");
+    ctx.require("err_illegal_unit", "unknown unit");
+    ctx.require("err_illegal_fil", "fillll");
+    ctx.require("err_missing_number", "vacuous constant");
+    for u in ["unit_pt", "unit_pc", "unit_in", "unit_bp", "unit_cm", "unit_mm", "unit_dd", "unit_cc", "unit_sp", "unit_em", "unit_ex", "unit_true", "unit_fil"] {
+        ctx.require(u, "the unit is exercised");
+    }
+    ctx.require("product_exactly_at_limit", "\\multiply result is exactly the largest legal value");
+    ctx.require("product_one_beyond_limit", "\\multiply result is one beyond the largest legal value");
+    ctx.require("advance_wraps", "\\advance leaves the 32-bit range");
+    ctx.require("division_truncates_toward_zero_negative", "\\divide of operands with different signs and a remainder");
+    ctx.require("division_by_zero", "\\divide by 0");
+    ctx.require("glue_sum_orders_differ", "glue sum with different orders");
+    ctx.require("glue_sum_zero_component_with_order_scanned", "glue sum where the scanned glue has a zero component of infinite order");
+    ctx.require("glue_sum_zero_component_with_higher_order_in_register", "glue sum where the register has a zero component of higher order");
+    ctx.require("kernel_overflow_or_div0_cases", "kernel sweep reaches the overflow side");
+    ctx.require("fraction_rounds_up_to_one", "a decimal fraction rounds to 65536 sp (carry into the integer part)");
+    ctx.require("scaled_new_overflow", "unit conversion overflows");
+    ctx.require("undefined_by_texweb_no_panic", "operands of -2^31 were exercised");
+    ctx.finish("print/scan: every scaled value in the stated ranges (non-trivial = non-zero); constants: full products of the stated menus (non-trivial = non-zero value or an error in the model); arithmetic: all lattice pairs (non-trivial = the value changes or an error is raised); kernels: every x in the stated ranges for every listed parameter (non-trivial = operands inside TeX's range)");
+}
+
+fn replay(case: &Value, acc: &mut Acc) {
+    match case["kind"].as_str() {
+        Some("print-scan") => check_print_scan(0, case["s"].as_i64().unwrap(), acc),
+        Some("const") => check_const(0, Kind::from(case["target"].as_str().unwrap()), &regs_from(&case["regs"]), case["constant"].as_str().unwrap(), acc),
+        Some("arith") => check_arith(0, Kind::from(case["target"].as_str().unwrap()), Op::from(case["op"].as_str().unwrap()), case["a"].as_i64().unwrap(), case["b"].as_i64().unwrap(), VARIANTS.iter().find(|v| **v == case["variant"].as_str().unwrap()).unwrap(), acc),
+        Some("glue-arith") => check_glue_arith(0, Op::from(case["op"].as_str().unwrap()), case["g"].as_u64().unwrap() as usize, case["rhs"].as_u64().unwrap() as usize, case["n"].as_i64().unwrap(), acc),
+        Some("vm-roundtrip") => {
+            let v: Vec<i64> = case["values"].as_array().unwrap().iter().map(|x| x.as_i64().unwrap()).collect();
+            check_vm_roundtrip(0, &v, acc)
+        }
+        Some("kernel") => {
+            acc.eval();
+            check_kernel_one(0, kernel_from(case["kernel"].as_str().unwrap()), case["x"].as_i64().unwrap(), case["p"].as_u64().unwrap() as usize, acc)
+        }
+        Some("extreme") => check_extreme(0, case["which"].as_u64().unwrap() as usize, case["x"].as_i64().unwrap(), case["n"].as_i64().unwrap(), case["y"].as_i64().unwrap(), acc),
+        Some("digits") => {
+            let d: Vec<u8> = case["digits"].as_array().unwrap().iter().map(|x| x.as_u64().unwrap() as u8).collect();
+            check_decimal_digits(0, &d, acc)
+        }
+        Some("new") => check_new(0, case["int"].as_i64().unwrap(), case["frac"].as_i64().unwrap(), case["unit"].as_u64().unwrap() as usize, acc),
+        _ => {
+            eprintln!("replay: unknown case kind");
+            std::process::exit(2);
+        }
+    }
 }
